@@ -75,7 +75,8 @@ structure St where
 def arg (as : List String) (i : Nat) : String := as.getD i "="
 
 def step (denv : Driver.Env) (s : St) (op : String) : St :=
-  match words op with
+  -- "LT" = the root package's wrapper tcell.LookupTerminfo: the same function on names the database resolves
+  match (match words op with | "LT" :: as => "L" :: as | ws => ws) with
   | "E" :: as => { s with env := { colorterm := untok (arg as 0), tcellTruecolor := untok (arg as 1) } }
   | "A" :: as =>
     let t := synthetic (untok (arg as 0)) (arg as 1) (toInt! (arg as 2)) (arg as 3)
